@@ -608,6 +608,30 @@ fn main() {
                     continue;
                 }
                 x.out.check_c(!accepted, "tampered_request_accepted", &case, kind);
+                if let Srv::Err(word) = &res {
+                    // the documented way to answer a rejected request: ServerError::build_message
+                    let w2 = w.clone(); let kk = ksl.clone();
+                    let built = catch_mut(move || {
+                        let mut m = Message::from_octets(w2).unwrap();
+                        match ServerTransaction::request(&&kk, &mut m, Time48::from_u64(t)) {
+                            Err(e) => e.build_message(&m, MessageBuilder::new_vec()).map(|b| b.finish()).map_err(|_| ()),
+                            _ => Err(()),
+                        }
+                    });
+                    let ecase = format!("serr {} {} {}", ks.words(), hex(&w), t);
+                    x.out.case(&ecase, &match &built { Err(_) => "Panic".to_string(), Ok(Ok(resp)) => format!("rcode {}", resp[3] & 0x0f), Ok(Err(())) => "NotBuilt".into() }, true, "serr");
+                    match built {
+                        Err(p) => x.out.check_c(false, "server_error_response_panics", &case, &format!("{}: ServerError({}).build_message panicked: {}", kind, word, p)),
+                        Ok(Err(())) => x.out.check_c(false, "server_error_response_not_built", &case, kind),
+                        Ok(Ok(resp)) => {
+                            x.out.check_c(true, "server_error_response_panics", &case, "");
+                            // RFC 8945 5.2: FORMERR for an uninterpretable / misplaced TSIG, 5.2.2-5.2.4: NOTAUTH + TSIG error otherwise
+                            let rc = resp[3] & 0x0f;
+                            let want = if word == "FORMERR" { 1 } else { 9 };
+                            x.out.check_c(rc == want, "server_error_response_wrong_rcode", &case, &format!("{}: TSIG error {} answered with RCODE {} (want {}): {}", kind, word, rc, want, hex(&resp)));
+                        }
+                    }
+                }
                 if let Some(wantw) = want {
                     if wantw == "reject" || accepted { continue; }
                     let got = match &res { Srv::None => "None".to_string(), Srv::Err(wd) => wd.clone(), Srv::BadTime(_) => "BADTIME".into(), _ => "?".into() };
@@ -795,6 +819,7 @@ fn main() {
         use domain::net::server::service::{CallResult, Service, ServiceResult};
         use domain::net::server::util::{mk_builder_for_target, service_fn};
         use futures_util::StreamExt;
+        use domain::base::ToName;
         fn handler(req: Request<Vec<u8>, Option<Key>>, _m: ()) -> ServiceResult<Vec<u8>> {
             let b = mk_builder_for_target::<Vec<u8>>();
             let mut a = b.start_answer(req.message(), Rcode::NOERROR).unwrap();
@@ -826,14 +851,14 @@ fn main() {
             let case = format!("middleware mode={} {} {}", mode, k.words(), hex(&sent));
             out.begin(&case);
             let svc = TsigMiddlewareSvc::<Vec<u8>, _, Key, ()>::new(service_fn(handler, ()), key.clone());
-            let request = Request::new("127.0.0.1:53".parse().unwrap(), std::time::Instant::now(), Message::from_octets(sent.clone()).unwrap(),
+            let request = Request::new("127.0.0.1:53".parse().unwrap(), tokio::time::Instant::now(), Message::from_octets(sent.clone()).unwrap(),
                 TransportSpecificContext::Udp(UdpTransportContext::new(None)), ());
             let resp: Result<Option<Vec<u8>>, String> = catch_mut(|| rt.block_on(async {
                 let mut stream = svc.call(request).await;
-                match stream.next().await { Some(Ok(cr)) => cr.into_inner().0.map(|b| b.as_dgram_slice().to_vec()), _ => None }
+                match stream.next().await { Some(Ok(cr)) => cr.into_inner().0.map(|b| b.finish().as_dgram_slice().to_vec()), _ => None }
             }));
             out.oracle_case(&case, true, "middleware");
-            let resp = match resp { Ok(Some(v)) => v, Ok(None) => { out.check_c(false, "middleware_no_response", &case, ""); continue } Err(e) => { out.check_c(false, "middleware_panic", &case, &e); continue } };
+            let resp = match resp { Ok(Some(v)) => v, Ok(None) => { out.check_c(false, "middleware_no_response", &case, ""); continue } Err(e) => { let e: String = e; out.check_c(false, "middleware_panic", &case, &e); continue } };
             let rcode = resp[3] & 0x0f;
             match mode {
                 0 | 1 => {
@@ -861,13 +886,14 @@ fn main() {
                     let answered = m.header_counts().ancount() > 0;
                     let rw = resp.clone();
                     let res = catch_mut(|| { let mut m = Message::from_octets(rw).unwrap(); tr.answer(&mut m, Time48::now()) });
-                    out.check_c(rcode == 9 && !answered, "middleware_tampered_request_answered", &case, &format!("rcode {} ancount>0 {} response {}", rcode, answered, hex(&resp)));
-                    out.check_c(matches!(res, Ok(Err(ValidationError::ServerBadSig))), "middleware_tampered_wrong_error", &case, &format!("{:?}", res));
+                    out.check_c((rcode == 9 || rcode == 1) && !answered, "middleware_tampered_request_answered", &case, &format!("rcode {} ancount>0 {} response {}", rcode, answered, hex(&resp)));
+                    if rcode == 9 { out.check_c(matches!(res, Ok(Err(ValidationError::ServerBadSig))), "middleware_tampered_wrong_error", &case, &format!("{:?}", res)); }
                 }
                 _ => {
                     // an unsigned request passes through unsigned
                     let m = Message::from_octets(resp.clone()).unwrap();
-                    out.check_c(rcode == 0 && m.header_counts().arcount() == Message::from_octets(pre.clone()).unwrap().header_counts().arcount(), "middleware_unsigned_passthrough", &case, &hex(&resp));
+                    let has_tsig = m.additional().map(|sec| sec.flatten().any(|rr| rr.rtype() == Rtype::TSIG)).unwrap_or(true);
+                    out.check_c(rcode == 0 && !has_tsig, "middleware_unsigned_passthrough", &case, &hex(&resp));
                 }
             }
         }
